@@ -8,7 +8,7 @@
 //!   Balance(a) = #{tracked k : Owner(tid[k]) present and = a} + rest[a]      (no overflow)
 //! The enumerable flavour lives in `nft_enum.rs`.
 use soroban_sdk::model::{self, world, Slot};
-use soroban_sdk::{contracttype, Address, Env, Flat, Vec};
+use soroban_sdk::{contracttype, Address, Env, Flat};
 use stellar_tokens::non_fungible::consecutive::storage::NFTConsecutiveStorageKey as ConsKey;
 use stellar_tokens::non_fungible::consecutive::Consecutive;
 use stellar_tokens::non_fungible::sequential;
@@ -499,7 +499,6 @@ pub fn base_mint() {
     let to = addr_below(3);
     let by = addr_below(3);
     kani::assume(by != to);
-    witness!(pre.has_k(k), "mint.prestate_id_already_has_an_owner");
 
     Base::mint(&e, &to, id);
 
@@ -532,7 +531,6 @@ pub fn base_sequential_mint() {
     let to = addr_below(3);
     let by = addr_below(3);
     kani::assume(by != to);
-    witness!(pre.has_k(k), "sequential_mint.prestate_counter_points_at_an_owned_id");
 
     let r = Base::sequential_mint(&e, &to);
 
@@ -587,7 +585,6 @@ pub fn base_approve() {
     let op_slot = model::slot(S_OP);
     let live_until: u32 = kani::any();
     let seq = world().seq;
-    let max_live = e.ledger().max_live_until_ledger();
 
     Base::approve(&e, &approver, &approved, id, live_until);
 
@@ -612,7 +609,7 @@ pub fn base_approve() {
         prop!(!model::slot(S_APPR).present && Base::get_approved(&e, id).is_none(), "C11.base.approve.zero_revokes");
     } else {
         prop!(live_until >= seq, "C11.base.approve.expiry_not_in_past");
-        prop!(live_until <= max_live, "C11.base.approve.expiry_within_max_ttl");
+        prop!(live_until - seq < world().max_ttl, "C11.base.approve.expiry_within_max_ttl");
         prop!(val_is(S_APPR, &ApprovalData { approved: approved.clone(), live_until_ledger: live_until }), "C11.base.approve.stored_exactly");
         prop!(model::slot(S_APPR).live_until >= live_until, "C11.base.approve.entry_lives_until_expiry");
     }
@@ -650,7 +647,6 @@ pub fn base_approve_for_all() {
     let appr = model::slot(2);
     let live_until: u32 = kani::any();
     let seq = world().seq;
-    let max_live = e.ledger().max_live_until_ledger();
 
     Base::approve_for_all(&e, &owner, &operator, live_until);
 
@@ -661,7 +657,7 @@ pub fn base_approve_for_all() {
         prop!(!model::slot(0).present && !Base::is_approved_for_all(&e, &owner, &operator), "C11.base.approve_for_all.zero_revokes");
     } else {
         prop!(live_until >= seq, "C11.base.approve_for_all.expiry_not_in_past");
-        prop!(live_until <= max_live, "C11.base.approve_for_all.expiry_within_max_ttl");
+        prop!(live_until - seq < world().max_ttl, "C11.base.approve_for_all.expiry_within_max_ttl");
         prop!(u32_is(0, live_until), "C11.base.approve_for_all.stored_exactly");
         prop!(model::slot(0).live_until >= live_until, "C11.base.approve_for_all.entry_lives_until_expiry");
     }
@@ -720,8 +716,8 @@ pub fn base_stale_approval_history() {
 
 // ------------------------------------------------------------------ consecutive: pure bit scan
 /// `find_bit_in_item(Some(word), start)` (pub(crate)) for ALL 2^32 words x 32 start positions, reached through
-/// the public `Consecutive::owner_of` with a one-item ownership bucket: owner_of(b*3200 + start) looks up
-/// `Owner(b*3200 + find_bit_in_item(word, start))`. The only Owner entry of the universe sits at a free
+/// the public `Consecutive::owner_of` with a one-item ownership bucket 0: owner_of(start) looks up
+/// `Owner(find_bit_in_item(word, start))`. The only Owner entry of the universe sits at a free
 /// symbolic id `probe`; owner_of returns normally exactly when the scan lands on `probe`.
 pub fn naive_first_set_from(word: u32, start: u32) -> Option<u32> {
     // MSB-relative positions start..31, first one whose bit is set
@@ -735,66 +731,83 @@ pub fn naive_first_set_from(word: u32, start: u32) -> Option<u32> {
     }
     r
 }
-fn declare_scan(word: u32, token_id: u32, probe: u32) {
-    // TokenIdCounter: any value that keeps token_id and its bucket's first item in range and ends the
-    // scan in the same bucket
-    let next: u32 = kani::any();
-    kani::assume(next > token_id && (next - 1) / 3200 == token_id / 3200);
+fn declare_scan(word: u32, probe: u32) {
+    // TokenIdCounter: bucket 0 completely issued (concrete, so that the bucket range 0..=0 is concrete)
+    let next: u32 = 3200;
     model::declare_val(0, 2, &SeqKeyMirror::TokenIdCounter, true, &next, 0);
-    let mut bucket: Vec<u32> = Vec::new(&Env::default());
+    let mut bucket: soroban_sdk::Vec<u32> = soroban_sdk::Vec::new(&Env::default());
     bucket.push_back(word);
-    model::declare_val(1, 0, &ConsKey::OwnershipBucket(token_id / 3200), true, &bucket, kani::any());
+    model::declare_val(1, 0, &ConsKey::OwnershipBucket(0), true, &bucket, kani::any());
     model::declare_val(2, 0, &ConsKey::Owner(probe), true, &Address::from_id(1), kani::any());
 }
-
-#[kani::proof]
-#[kani::unwind(34)]
-pub fn bits_find_bit_in_item_sound() {
-    setup_world();
-    let e = Env::default();
-    let word: u32 = kani::any();
-    let start: u32 = kani::any();
-    kani::assume(start < 32);
-    let b: u32 = kani::any();
-    kani::assume(b <= (u32::MAX - 3199) / 3200);
-    let token_id = b * 3200 + start;
-    let probe: u32 = kani::any();
-    declare_scan(word, token_id, probe);
-
-    let o = Consecutive::owner_of(&e, token_id);
-
-    let want = naive_first_set_from(word, start);
-    prop!(want.is_some(), "C10.consecutive.find_bit_in_item.none_when_no_bit_at_or_after_start");
-    prop!(want.is_none() || probe == b * 3200 + want.unwrap(), "C10.consecutive.find_bit_in_item.first_set_bit_at_or_after_start");
-    prop!(o == Address::from_id(1), "C10.consecutive.owner_of.returns_marker_owner");
-    witness!(start == 0 && word == 1, "bits.lsb_from_msb");
-    witness!(start == 31 && word == u32::MAX, "bits.last_position");
-    witness!(start == 5 && probe % 3200 == 17, "bits.middle");
-    witness!(b > 0, "bits.later_bucket");
-    end_checks(3);
+/// `owner_of(start)` with the start position CONCRETE at every call site (guarded call sites), so that the
+/// scan loops have concrete bounds; `start` itself stays symbolic in lo..hi. (Symbolic execution costs
+/// ~6 s per call site, hence four harnesses of 8 start positions each.)
+fn owner_of_dispatch(e: &Env, start: u32, lo: u32, hi: u32) -> Address {
+    let mut o = Address::from_id(0);
+    let mut s: u32 = lo;
+    while s < hi {
+        if start == s {
+            o = Consecutive::owner_of(e, s);
+        }
+        s += 1;
+    }
+    o
 }
-/// converse: whenever the reference finds a bit, the real scan finds the same one (owner_of must succeed)
-#[kani::proof]
-#[kani::unwind(34)]
-pub fn bits_find_bit_in_item_complete() {
-    setup_world();
-    let e = Env::default();
-    let word: u32 = kani::any();
-    let start: u32 = kani::any();
-    kani::assume(start < 32);
-    let want = naive_first_set_from(word, start);
-    kani::assume(want.is_some());
-    let token_id = start;
-    let probe = want.unwrap();
-    declare_scan(word, token_id, probe);
-    // ledger far from the u32 edge so that TTL extension cannot trap
-    kani::assume(world().seq < 1 << 30);
-    world().must_succeed = true;
 
-    let o = Consecutive::owner_of(&e, token_id);
+macro_rules! bits_family {
+    ($sound:ident, $complete:ident, $lo:literal, $hi:literal) => {
+        /// a normal return of the real scan lands on the reference's bit
+        #[kani::proof]
+        #[kani::unwind(34)]
+        #[allow(unused_comparisons)]
+        pub fn $sound() {
+            setup_world();
+            let e = Env::default();
+            let word: u32 = kani::any();
+            let start: u32 = kani::any();
+            kani::assume(start >= $lo && start < $hi);
+            let probe: u32 = kani::any();
+            declare_scan(word, probe);
 
-    prop!(o == Address::from_id(1), "C10.consecutive.find_bit_in_item.finds_every_bit_the_reference_finds");
-    witness!(start == 31 && word == 1, "bits.only_last");
-    witness!(start == 0 && word == 1 << 31, "bits.only_first");
-    end_checks(3);
+            let o = owner_of_dispatch(&e, start, $lo, $hi);
+
+            let want = naive_first_set_from(word, start);
+            prop!(want.is_some(), "C10.consecutive.find_bit_in_item.none_when_no_bit_at_or_after_start");
+            prop!(want.is_none() || probe == want.unwrap(), "C10.consecutive.find_bit_in_item.first_set_bit_at_or_after_start");
+            prop!(o == Address::from_id(1), "C10.consecutive.owner_of.returns_marker_owner");
+            witness!(start == $lo && word == 1, "bits.lsb_from_lowest_start");
+            witness!(start == $hi - 1 && word == u32::MAX, "bits.all_set_from_highest_start");
+            witness!(start == $lo + 3 && probe == 27, "bits.middle");
+            end_checks(3);
+        }
+        /// converse: whenever the reference finds a bit, the real scan finds the same one (owner_of must succeed)
+        #[kani::proof]
+        #[kani::unwind(34)]
+        #[allow(unused_comparisons)]
+        pub fn $complete() {
+            setup_world();
+            let e = Env::default();
+            let word: u32 = kani::any();
+            let start: u32 = kani::any();
+            kani::assume(start >= $lo && start < $hi);
+            let want = naive_first_set_from(word, start);
+            kani::assume(want.is_some());
+            declare_scan(word, want.unwrap());
+            // ledger far from the u32 edge so that TTL extension cannot trap
+            kani::assume(world().seq < 1 << 30);
+            world().must_succeed = true;
+
+            let o = owner_of_dispatch(&e, start, $lo, $hi);
+
+            prop!(o == Address::from_id(1), "C10.consecutive.find_bit_in_item.finds_every_bit_the_reference_finds");
+            witness!(start == $hi - 1 && word == 1, "bits.only_last_bit");
+            witness!(start == $lo && word == 1 << (31 - $lo), "bits.bit_exactly_at_start");
+            end_checks(3);
+        }
+    };
 }
+bits_family!(bits_sound_0, bits_complete_0, 0, 8);
+bits_family!(bits_sound_8, bits_complete_8, 8, 16);
+bits_family!(bits_sound_16, bits_complete_16, 16, 24);
+bits_family!(bits_sound_24, bits_complete_24, 24, 32);
